@@ -276,7 +276,7 @@ func TestPropConcave(t *testing.T) {
 		}
 		stats.Class("concave family:" + family)
 		sym := rapid.IntRange(0, 7).Draw(rt, "symmetry")
-		tr := drawTransform(rt, false)
+		tr := drawTransform(g, false)
 		if tr.name != "identity" {
 			stats.Class("transformed")
 		}
